@@ -1,4 +1,5 @@
 import RP.Gen.Consts
+import RP.Gen.C01
 import RP.Model.Bits
 /-! # Model of the hand evaluator (`src/cards/{evaluator,ranking,kicks,strength,hand,rank,suit}.rs`)
 
@@ -11,7 +12,9 @@ import RP.Model.Bits
 * `find_rank_of_n_oak_skip` (nibble window walking down from the Ace) → `nOakSkip`   on the per-rank counts
 * `find_rank_of_straight` (4 × `bits &= bits << 1`, wheel)            → `findStraight` (`straightShifts`, `wheel*`, `lowStraight*`)
 * `find_ranking` (lazy search, order = `RP.Gen.findOrder`)            → `findRanking?`
-* `find_kickers` / `n_kickers`                                        → `findKickers` (`nKickers`)
+* `find_kickers` / `n_kickers`                                        → `findKickers?` (`nKickers`)
+* `find_kickers_of_flush` (the four flush cards below the top one)    → `flushKickers?` (`RP.Gen.C01`)
+* `Strength::from(Evaluator)`: kickers of `Flush(hi)` from the latter → `evalA?`
 * derived `Ord` of `Strength {value: Ranking, kicks: Kickers}`        → `strengthKey` (variant index from the generated
   enum order `rankingOrder*`, then the rank fields, then the kicker mask as a number)
 
@@ -180,6 +183,11 @@ def findKickers? (c : Cls) (v : Rk) : Option Nat :=
       else none
     mask.map fun m => trim n 16 (c.rk &&& m)
 
+/-- `find_kickers_of_flush(hi)`: rank mask of the flush suit without `hi`, lowest ranks dropped
+    until `RP.Gen.C01.flushKickers` remain; `none` = `.expect("flush suit")` fails -/
+def flushKickers? (c : Cls) (hi : Nat) : Option Nat :=
+  c.fl.map fun F => trim RP.Gen.C01.flushKickers 16 (F &&& not16 (1 <<< hi))
+
 /-- `Strength`, flattened: derived-order position of the variant, its fields, the kicker mask -/
 structure Strength where
   idx : Nat
@@ -192,7 +200,8 @@ structure Strength where
 def evalA? (cfg : Cfg) (c : Cls) : Option (Rk × Nat) :=
   match findRanking? cfg c with
   | none => none
-  | some v => (findKickers? c v).map fun k => (v, k)
+  | some v =>
+    (if RP.Gen.C01.flushKickerCats.contains v.cat then flushKickers? c v.r1 else findKickers? c v).map fun k => (v, k)
 
 def evalA (cfg : Cfg) (c : Cls) : Rk × Nat := (evalA? cfg c).getD (⟨0, 0, 0⟩, 0)
 
